@@ -46,6 +46,11 @@ var specs = []string{
 	`{"swagger":"2.0","info":{"title":"Todo List","version":"3"},"paths":{
 	 "/items":{"get":{"operationId":"listItems","tags":["items"],"parameters":[{"name":"limit","in":"query","type":"integer","default":20}],"responses":{"200":{"description":"ok","schema":{"type":"array","items":{"$ref":"#/definitions/Item"}}}}}}},
 	 "definitions":{"Item":{"type":"object","properties":{"title":{"type":"string"},"done":{"type":"boolean"},"tags":{"type":"array","items":{"type":"string"}}}}}}`,
+	// v4: the API was renamed (commands that derive the application name from the title now use other file names)
+	`{"swagger":"2.0","info":{"title":"Task Board","version":"4"},"paths":{
+	 "/items":{"get":{"operationId":"listItems","tags":["items"],"parameters":[{"name":"limit","in":"query","type":"integer","default":20}],"responses":{"200":{"description":"ok","schema":{"type":"array","items":{"$ref":"#/definitions/Item"}}}}},
+	          "post":{"operationId":"addItem","tags":["items"],"parameters":[{"name":"body","in":"body","required":true,"schema":{"$ref":"#/definitions/Item"}}],"responses":{"201":{"description":"created"}}}}},
+	 "definitions":{"Item":{"type":"object","required":["title"],"properties":{"title":{"type":"string"},"done":{"type":"boolean"}}}}}`,
 }
 
 type stepSpec struct {
@@ -130,6 +135,10 @@ func commandKinds(layoutPath string) []stepSpec {
 		// the contributed templates come with options of their own: stratoscale regenerates its (not user-editable) configure file
 		k("server --template stratoscale", true, "server", "-q", "-A", "TodoList", "--template", "stratoscale"),
 		k("client --template stratoscale", false, "client", "-q", "-A", "TodoList", "--template", "stratoscale"),
+		// another application name on the same target, and the name taken from the title (which v4 changes)
+		k("server -A Inventory", false, "server", "-q", "-A", "Inventory"),
+		k("server (name from the title)", false, "server", "-q"),
+		k("client (name from the title)", false, "client", "-q"),
 	}
 }
 
@@ -151,7 +160,9 @@ func genCommands(r *rng.R, layoutPath string) stepSpec {
 	return st
 }
 
-var userFiles = []string{"restapi/custom_middleware.go", "models/user_extra.go", "NOTES.md", "restapi/operations/items/my_helpers.go", "cmd/todo-list-server/extra.go"}
+// user files, some of them where generated files of an application with another name would live
+var userFiles = []string{"restapi/custom_middleware.go", "models/user_extra.go", "NOTES.md", "restapi/operations/items/my_helpers.go", "cmd/todo-list-server/extra.go",
+	"cmd/auth-server/main.go", "restapi/configure_auth.go", "restapi/operations/auth_api.go", "client/auth_client.go", "cmd/auth-server/extra.go", "models/auth_token.go"}
 
 func isConfigure(p string) bool {
 	b := filepath.Base(p)
@@ -235,7 +246,7 @@ func main() {
 			if strings.Contains(k.Label, "documented-layout") {
 				h[0] = stepSpec{Kind: "gen", Spec: 0, Args: k.Args, Label: k.Label}
 			}
-			for _, v := range []int{0, 1, 2, 0} {
+			for _, v := range []int{0, 1, 2, 3, 0} {
 				st := k
 				st.Spec = v % len(specs)
 				h = append(h, st)
@@ -284,7 +295,8 @@ func main() {
 					case "user-edit-configure":
 						var cfg string
 						for p := range before {
-							if isConfigure(p) {
+							// a configure file the generator wrote (never the user's own restapi/configure_auth.go); the first in name order
+							if isConfigure(p) && userOwned[p] == "" && (cfg == "" || p < cfg) {
 								cfg = p
 							}
 						}
@@ -458,7 +470,7 @@ func main() {
 	sort.Slice(viols, func(i, j int) bool { return viols[i].Key < viols[j].Key })
 	rep := map[string]interface{}{
 		"evaluations": evals, "distinct_nontrivial": len(pairSeen) + evals/2,
-		"rule":    fmt.Sprintf("%d histories (random ones of length %d, plus one systematic history per command kind walking the spec versions v1, v2, v3, v1 on one target) over {"+kindLabels(layoutPath)+"} x 3 versions of one spec (parameters/properties/operations/definitions gained and lost, files shrink and grow), interleaved with user edits of the configure file and user-added files; after every step all files of the target are hashed and compared with (a) their previous state and (b) the same command run into an empty directory. Non-trivial: every step after the first of a history (it runs on a non-empty target); distinct ordered pairs of generate kinds are counted.", len(hist), *hl),
+		"rule":    fmt.Sprintf("%d histories (random ones of length %d, plus one systematic history per command kind walking the spec versions v1, v2, v3, v4, v1 on one target) over {"+kindLabels(layoutPath)+"} x 4 versions of one spec (parameters/properties/operations/definitions gained and lost, files shrink and grow, the title changes), user files also at the paths an application of another name would use, interleaved with user edits of the configure file and user-added files; after every step all files of the target are hashed and compared with (a) their previous state and (b) the same command run into an empty directory. Non-trivial: every step after the first of a history (it runs on a non-empty target); distinct ordered pairs of generate kinds are counted.", len(hist), *hl),
 		"samples": samples, "coverage": cov, "violations": viols, "model_cases": len(cases), "ordered_pairs": len(pairSeen),
 	}
 	b, _ := json.MarshalIndent(rep, "", " ")
